@@ -151,6 +151,21 @@ def c16_run(ctx):
             problems.append((k_, f"{a_}: {b_}"))
     hp, hn = c16_histories(ctx)
     problems += hp
+    # operands that are not vectors: the structured dtype OBJECT handed to vector.array and the plain ndarray whose view is taken
+    for names in (("px", "py"), ("pt", "phi", "eta"), ("px", "py", "pz", "E"), ("x", "y", "z", "t"), ("rho", "phi", "theta", "mass")):
+        dt = numpy.dtype([(nm, numpy.float64) for nm in names])
+        raw = numpy.zeros(3, dtype=[(nm, numpy.float64) for nm in names])
+        cls = getattr(vector, ("MomentumNumpy" if any(nm in C.MOMNAME_INV for nm in names) else "VectorNumpy") + f"{len(names)}D")
+        for label, f_, watched in (("vector.array(records, dtype=dt)", lambda: vector.array([tuple(1.0 + j for j in range(len(names)))], dtype=dt), lambda: dt.names),
+                                   ("raw.view(%s)" % cls.__name__, lambda: raw.view(cls), lambda: raw.dtype.names)):
+            n_calls += 1
+            try:
+                f_()
+            except Exception:  # noqa: BLE001
+                pass
+            if tuple(watched()) != tuple(names):
+                problems.append(("numpy-dtype-renamed-in-place", f"numpy-dtype-renamed-in-place: {label} with field names {names} renamed the fields of its operand to {tuple(watched())} (the dtype object is shared and renamed in place by __array_finalize__)"))
+                break
     return problems, {"calls_with_snapshot": n_calls, "history_steps": hn}, samples
 
 
